@@ -244,6 +244,9 @@ def scenarios(tier):
     # time passes (keep-alive deadline of the previous idle period) while a response is open on a re-used connection and
     # other threads make the pool run its housekeeping
     out.append((S("h11", ["req:a:w", "held:a", "tick:6", "req:b"], max_connections=2, keepalive_expiry=5.0, granularity="sync"), 2))
+    # two threads handed the same still-connecting (HTTP/2-capable) proxied connection
+    for ct_ in (["socks-h2"] if quick else ["socks-h2", "tunnel-h2", "h2alpn"]):
+        out.append((S(ct_, ["req:a", "req:a"], max_connections=1, granularity="sync"), 2))
     L1, L2 = (1, 2)
     line_bound = 1 if quick else 2
     sync_bound = 2 if quick else 3
